@@ -2,6 +2,8 @@ import ComposeVerif.Ops.Common
 import ComposeVerif.Model.C01Stages
 import ComposeVerif.Model.C01Cycles
 import ComposeVerif.Model.C01Reset
+import ComposeVerif.Model.C01Unicity
+import ComposeVerif.Model.Unicity
 /-! line-protocol ops for C01: stage walkers, cycle tracker, extends / include / depends_on loops -/
 open Lean
 namespace CV.Ops.C01
@@ -233,7 +235,16 @@ def resetOp : Handler := fun args =>
   | .error .outOfFuel => Json.mkObj [("outOfFuel", true)]
   | .error .badIndex => bad "index"
 
-def handlers : List (String × Handler) := [("c01reset", resetOp),
+/-! ### the `seq` / `keys` loop of `enforceUnicity` on a list of `K=v` strings (keys as `keyValueIndexer` computes them) -/
+
+def unicityLoopOp : Handler := fun args =>
+  let entries := getStrList args "entries"
+  let kes : List (String × CV.Val) := entries.map fun s => (CV.Unicity.kvKey s, CV.Val.str s)
+  match CV.C01.Uniq.run kes with
+  | .ok seq => Json.mkObj [("ok", Json.arr (seq.map fun v => match v with | .str s => Json.str s | _ => Json.null).toArray)]
+  | .panic site => Json.mkObj [("panic", Json.str site)]
+
+def handlers : List (String × Handler) := [("c01reset", resetOp), ("c01unicityLoop", unicityLoopOp),
   ("c01convert", convertOp), ("c01convertTop", convertTopOp), ("c01fixEmpty", fixEmptyOp), ("c01omitEmpty", omitEmptyOp),
   ("c01tracker", trackerOp), ("c01extends", extendsOp), ("c01include", includeOp), ("c01checkCycle", checkCycleOp)]
 
